@@ -750,4 +750,13 @@ pub mod verif {
             &super::Polynomial::new(g.to_vec()),
         )
     }
+    /// The (F, G) the key generator's solver finds for a candidate (f, g),
+    /// before the generator decides whether they fit their 8-bit fields.
+    pub fn ntru_solve(f: &[i16], g: &[i16]) -> Option<(Vec<i32>, Vec<i32>)> {
+        super::ntru_solve_entrypoint(
+            super::Polynomial::new(f.iter().map(|&c| c as i32).collect()),
+            super::Polynomial::new(g.iter().map(|&c| c as i32).collect()),
+        )
+        .map(|(capital_f, capital_g)| (capital_f.coefficients, capital_g.coefficients))
+    }
 }
